@@ -312,6 +312,62 @@ def gen_lines(prop, seed, n, tier):
     return [l for l in r.stdout.split("\n") if l]
 
 
+def _variants(tok):
+    """simpler variants of one protocol token (durations c:ns, epochs c:ns:TS, integers; hex/f64 left alone)"""
+    out = []
+    parts = tok.split(":")
+    def ints(x):
+        try:
+            return int(x)
+        except ValueError:
+            return None
+    if len(parts) in (2, 3) and ints(parts[0]) is not None and ints(parts[1]) is not None:
+        c, ns = int(parts[0]), int(parts[1])
+        tail = parts[2:]
+        cands = set()
+        for c2 in {0, -1, 1, c // 2, c + (1 if c < 0 else -1 if c > 0 else 0)}:
+            cands.add((c2, ns))
+        for ns2 in {0, 1, ns // 2, ns - ns % 1000000000, ns - ns % 86400000000000, ns - 1 if ns > 0 else 0}:
+            if 0 <= ns2 < 3155760000000000000:
+                cands.add((c, ns2))
+        cands.discard((c, ns))
+        for c2, ns2 in cands:
+            if -32768 <= c2 <= 32767:
+                out.append(":".join([str(c2), str(ns2)] + tail))
+    elif ints(tok) is not None and len(tok) < 40:
+        v = int(tok)
+        for v2 in {0, 1, -1, v // 2, v - 1 if v > 0 else v + 1 if v < 0 else 0}:
+            if v2 != v:
+                out.append(str(v2))
+    return out
+
+
+def shrink(row, why, log, rounds=12):
+    """greedy delta-debugging on the fields of a violating case: keep a simpler line while it still
+    fails the SAME spec clause with the same classification"""
+    cur = row
+    for _ in range(rounds):
+        toks = cur[0].split(" ")
+        cands = []
+        for i in range(1, len(toks)):
+            for v in _variants(toks[i]):
+                cands.append(" ".join(toks[:i] + [v] + toks[i + 1:]))
+        if not cands:
+            break
+        cands = cands[:200]
+        rows = run_cases(cands, lambda m: None)
+        better = None
+        for r in rows:
+            if r[3] == cur[3] and (r[1] == r[2]) == (cur[1] == cur[2]) and r[4] == cur[4] and r[2] not in ("bad-op", "bad-line"):
+                if len(r[0]) < len(cur[0]) or (len(r[0]) == len(cur[0]) and r[0] < cur[0]):
+                    if better is None or len(r[0]) < len(better[0]):
+                        better = r
+        if better is None:
+            break
+        cur = better
+    return cur
+
+
 def shrink_note(row):
     inp, impl, model, spec, cls, branch = row
     return {"input": inp, "impl": impl, "model": model, "spec": spec, "class": cls, "branch": branch}
@@ -446,9 +502,15 @@ def main():
             count += 1
             if count > 5:
                 break
+            small = row
+            try:
+                small = shrink(row, why, log)
+            except Exception as ex:  # shrinking is best effort
+                log("shrink failed: %r" % (ex,))
             h = hashlib.sha1(row[0].encode()).hexdigest()[:10]
             path = write_replay(prop, h, {"property": prop, "why": why, "seed": seed, "tier": tier,
-                                          "cases": [shrink_note(row)],
+                                          "cases": [shrink_note(small)] + ([shrink_note(row)] if small is not row else []),
+                                          "note": "cases[0] is the shrunk failing input, cases[1] (if present) the input as generated",
                                           "replay_cmd": f"./check {prop} --replay replays/{prop}-{h}.json"})
             out_lines.append(f"VIOLATION property={prop} replay={path}")
         exit_code = 1
